@@ -57,6 +57,17 @@ def decorate(p, r, uniq):
         d["clsname"] = names[i]
         if i > 0 and r.random() < 0.25:
             d["base"] = p["lib"][r.randrange(i)]["name"]
+        # mixins: further bases (Component subclasses that only declare Media), after the generated base if there is one
+        d["mixins"] = []
+        if r.random() < 0.25:
+            for j in range(r.randint(1, 2)):
+                d["mixins"].append({"mjs": ["/m/mix_%d_%d.js" % (i, j)], "mcss": ["/m/mix_%d_%d.css" % (i, j)] if r.random() < 0.5 else []})
+            if r.random() < 0.5:
+                # no Media of its own: everything comes from the bases (all of them)
+                a.pop("Media", None)
+                d["own_mjs"], d["own_mcss"] = [], []
+                if not d.get("base") and len(d["mixins"]) < 2:
+                    d["mixins"].append({"mjs": ["/m/mix_%d_9.js" % i], "mcss": []})
     by = {d["name"]: d for d in p["lib"]}
     for d in p["lib"]:
         # expected Media = own + inherited (C16); js / css strings are inherited as class attributes
@@ -67,9 +78,12 @@ def decorate(p, r, uniq):
         while b:
             chain.append(by[b])
             b = by[b].get("base")
+        for m in d["mixins"]:
+            mjs += [u for u in m["mjs"] if u not in mjs]
+            mcss += [u for u in m["mcss"] if u not in mcss]
         for anc in chain:
-            mjs += [u for u in anc["own_mjs"] if u not in mjs]
-            mcss += [u for u in anc["own_mcss"] if u not in mcss]
+            mjs += [u for u in anc["own_mjs"] + [u2 for m in anc["mixins"] for u2 in m["mjs"]] if u not in mjs]
+            mcss += [u for u in anc["own_mcss"] + [u2 for m in anc["mixins"] for u2 in m["mcss"]] if u not in mcss]
             if js is None:
                 js = anc["pyattrs"].get("js")
             if css is None:
@@ -155,6 +169,9 @@ def run_pages(chk, n):
             chk.branch(["rendered_classes:%d" % min(len(rendered), 5), "markers:%d" % min(len(markers), 9),
                         "nonascii" if any(d.get("clsname") and not d["clsname"].isascii() for d in lib) else "ascii",
                         "inherit" if any(d.get("base") for d in lib) else "flat",
+                        "mixins" if any(d.get("mixins") for d in lib) else "no-mixins",
+                        "mixins-without-own-Media" if any(d.get("mixins") and "Media" not in d.get("pyattrs", {}) and
+                                                          (d.get("base") or len(d["mixins"]) > 1) for d in lib) else "-",
                         "head" if "<head>" in src else "nohead", "jsph" if "js_dependencies" in src else "nojsph"])
             classes = [{"js": bool(d["exp"]["js"]), "css": bool(d["exp"]["css"]), "mjs": d["exp"]["mjs"], "mcss": d["exp"]["mcss"],
                         "hash": built.classes[d["name"]]._class_hash} for d in lib]
